@@ -244,10 +244,17 @@ func redirectCase(w *mon.W, c *mon.Case, getC func(ccfg) *cengine) {
 		return
 	}
 	r := c.R
-	cf := ccfg{stream: r.Bool()}
+	cf := ccfg{stream: r.Bool(), noPathNorm: r.Chance(3)}
 	ce := getC(cf)
 	code := r.Int(301, 302, 303, 307, 308, 307, 308)
 	a := &areq{Method: r.Str("POST", "PUT", "POST", "GET", "DELETE"), Path: "/a", SafeTarget: true}
+	// with path normalising off, DoRedirects sends the request Do sends: the path as given,
+	// and follows a Location as given
+	loc := "/b?hop=1"
+	if cf.noPathNorm {
+		a.Path = r.Str("/a", "/a%2Fb/../c//d", "/x/./y", "/p//q")
+		loc = r.Str("/b?hop=1", "/files/a%2Fb//c?k=v", "/m/../n?hop=1")
+	}
 	a.BodyMode = r.Str("none", "bytes", "stream-known", "stream-unknown", "form")
 	if a.Method == "GET" {
 		a.BodyMode = "none"
@@ -258,7 +265,7 @@ func redirectCase(w *mon.W, c *mon.Case, getC func(ccfg) *cengine) {
 	case "form":
 		a.Fields = map[string]string{"k": "v w", "z": "&="}
 	}
-	hop1 := fmt.Sprintf("HTTP/1.1 %d Redirect\r\nLocation: /b?hop=1\r\nContent-Length: 0\r\n\r\n", code)
+	hop1 := fmt.Sprintf("HTTP/1.1 %d Redirect\r\nLocation: %s\r\nContent-Length: 0\r\n\r\n", code, loc)
 	hop2 := "HTTP/1.1 200 OK\r\nContent-Length: 4\r\n\r\ndone"
 	frags := [][][]byte{{[]byte(hop1)}, {[]byte(hop2)}}
 	var conns []*crig.SeqConn
@@ -276,7 +283,7 @@ func redirectCase(w *mon.W, c *mon.Case, getC func(ccfg) *cengine) {
 		return sc, nil
 	}
 	defer ce.hc.CloseIdleConnections()
-	desc := fmt.Sprintf("%s /a body=%s/%d -> %d Location: /b?hop=1 -> 200; streaming responses=%v", a.Method, a.BodyMode, len(a.Body), code, cf.stream)
+	desc := fmt.Sprintf("%s %s body=%s/%d -> %d Location: %s -> 200; streaming responses=%v path normalising off=%v", a.Method, a.Path, a.BodyMode, len(a.Body), code, loc, cf.stream, cf.noPathNorm)
 	c.Detail = func() interface{} { return map[string]interface{}{"family": "redirect", "exchange": desc} }
 	req, resp := protocol.AcquireRequest(), protocol.AcquireResponse()
 	a.build(r, req)
@@ -316,6 +323,10 @@ func redirectCase(w *mon.W, c *mon.Case, getC func(ccfg) *cengine) {
 		c.Violate("request-malformed", "%s: the hops sent are not 1..2 well-formed requests (%d, %v): %q", desc, len(msgs), err, trunc(string(all), 400))
 		return
 	}
+	if cf.noPathNorm && msgs[0].Target != a.Path {
+		c.Violate("request-mismatch", "%s: the first hop was sent with the target %q; Do sends %q (path normalising is off)", desc, msgs[0].Target, a.Path)
+		return
+	}
 	if len(msgs) == 1 {
 		// not followed: the caller gets the redirect itself
 		w.Count("redirects_not_followed", 1)
@@ -325,8 +336,8 @@ func redirectCase(w *mon.W, c *mon.Case, getC func(ccfg) *cengine) {
 		return
 	}
 	w.Count("redirects_followed", 1)
-	if msgs[1].Target != "/b?hop=1" {
-		c.Violate("request-mismatch", "%s: second hop has the target %q, want /b?hop=1", desc, msgs[1].Target)
+	if msgs[1].Target != loc {
+		c.Violate("request-mismatch", "%s: second hop has the target %q, want %s", desc, msgs[1].Target, loc)
 		return
 	}
 	if (code == 307 || code == 308) && (msgs[1].Method != msgs[0].Method || !bytes.Equal(msgs[1].Body, msgs[0].Body)) {
